@@ -97,8 +97,8 @@ BStep(e) ==
     [] e.ev = "ctr"    -> \E m \in Holder(e) :
                             IF e.a = 0
                             THEN MAddEn(st, m) /\ st' = MAdd(st, m)
-                            ELSE /\ MRdEn(st, m) /\ MCounter(st, m) = e.a
-                                 /\ st' = MWr(MRd(st, m), m)
+                            ELSE /\ MIncEn(st, m) /\ MCounter(st, m) = e.a
+                                 /\ st' = MInc(st, m)
     [] e.ev = "done"   -> /\ (e.id + 1) \in DOMAIN st.M
                           /\ st.M[e.id + 1].pc = "idle" /\ st.M[e.id + 1].idx = e.a
                           /\ UNCHANGED st
